@@ -359,6 +359,9 @@ def run_reprint_batches(ctx, v, batches, listed_quirks):
             continue
         lines2.append({"op": "query", "id": l["id"], "text": rp, "optimize": l["optimize"]})
     impl2 = common.run_impl(ctx["binary"], lines2, scratch)
+    if os.environ.get("VERIF_DUMP_REPRINT"):
+        with open(os.environ["VERIF_DUMP_REPRINT"], "a") as fh:
+            fh.write(json.dumps({"lines2": lines2}) + "\n")
     # third pass: what was parsed with the optimiser is printed for readers that do not have one (a monitoring core takes
     # `~` as a regular expression): the text must select the same rows when it is read without the optimiser
     lines3 = [l if l.get("op") == "dataset" else dict(l, optimize=False) for l in lines2 if l.get("op") == "dataset" or l.get("optimize")]
@@ -366,6 +369,15 @@ def run_reprint_batches(ctx, v, batches, listed_quirks):
     for cid, case in cases.items():
         m = model.get(cid)
         r1 = impl1.get(cid) or {}
+        # the other serialisation: the request data a cluster node builds for its partners (buildDistributedRequestData) is read
+        # back by the receiving parser; for a request that was accepted it must be accepted as well
+        if r1.get("code") == 200 and r1.get("sub_err"):
+            v.violations.append(("property", dict(case, extra=dict(case.get("extra") or {}, original=case["text"])),
+                                 "the request data generated for cluster sub-requests from an accepted request is rejected by the parser: %s" % r1["sub_err"]))
+            v.stats["evaluated"] += 1
+            continue
+        if r1.get("code") == 200:
+            v.bump("subrequest_data_parsed")
         if m is None or m.get("parse") != "ok" or m.get("kind") not in ("data", "stats"):
             v.stats["evaluated"] += 1
             v.stats["unsupported"] += 1
